@@ -137,6 +137,18 @@ def evaluate(cfg):
         charge_call(o, g, shells, ["far"], "1 charge", ref_all, diag_all, cls_index, pos)
         charge_call(o, g, shells, ["T%g" % T for T in TLADDER], "Boys ladder", ref_all, diag_all, cls_index, pos)
     if cfg["test"] == "cover":
+        from gbasis.integrals.point_charge import point_charge_integral
+        icoords = np.array([[1, 0, 0], [0, 2, -1], [0, 0, 0]])
+        iq = np.array([1, -2, 3])
+        vi = point_charge_integral(g, icoords, iq)
+        vf = point_charge_integral(g, icoords.astype(float), iq.astype(float))
+        o.call(2)
+        o.same("integer-dtype charge positions and charges == the same values as floats", vi, vf, key="charges-int-dtype")
+        o.same("charge positions as Fortran-ordered / strided arrays",
+               point_charge_integral(g, np.asfortranarray(allpts[:3]), np.array([QS[c] for c in names[:6]])[::2]),
+               point_charge_integral(g, allpts[:3].copy(), np.array([QS[c] for c in names[:6]])[::2].copy()),
+               key="charges-representation")
+        o.call(2)
         rev = [shells[1], shells[0]]
         na = shells[0].nfunc
         perm = list(range(na, len(ref_all))) + list(range(na))
